@@ -20,7 +20,7 @@ func genC04(r *Rand, idx int, tier string) Case {
 	w := map[string]int{"LOOKUP": 12, "GETATTR": 10, "SETATTR": 12, "READDIRPLUS": 10, "READDIR": 4, "ACCESS": 5, "READ": 5,
 		"READLINK": 5, "WRITE": 5, "CREATE": 5, "MKDIR": 4, "SYMLINK": 5, "REMOVE": 3, "RMDIR": 2, "RENAME": 3, "COMMIT": 2,
 		"FSSTAT": 1, "FSINFO": 1, "PATHCONF": 1}
-	return genHistory(r, idx, histOpts{weights: w, populate: fullTree(r.U64()), oddNamePct: 2})
+	return genHistory(r, idx, histOpts{weights: w, populate: fullTree(r.U64()), oddNamePct: 2, recency: 40, sandwich: 35})
 }
 
 // C06: small handle limits so that values pass through eviction and the free list and are reissued;
